@@ -4,11 +4,18 @@ import json, os, re, shutil, subprocess, sys
 VER = os.path.dirname(os.path.dirname(os.path.abspath(__file__)))
 props = {json.loads(l)['id']: json.loads(l) for l in open(os.path.join(VER, 'properties.jsonl'))}
 ROUND2 = '--round2' in sys.argv
+ROUND3 = '--round3' in sys.argv
+R3 = {'a': 'C20', 'b': 'C11', 'c': 'C18', 'd': 'C02'}
 args = [a for a in sys.argv[1:] if not a.startswith('--')]
-for pid in args:
-    for v0 in 'AB':
-        d = f'/tmp/wt2-{pid}/SEEDED/{v0}' if ROUND2 else f'/tmp/wt-{pid}/SEEDED/{v0}'
-        v = {'A': 'C', 'B': 'D'}[v0] if ROUND2 else v0
+for arg in args:
+    pid = R3[arg] if ROUND3 else arg
+    for v0 in ('ABCD' if ROUND3 else 'AB'):
+        if ROUND3:
+            d = f'/tmp/wt3-{arg}/SEEDED/{v0}'
+            v = {'A': 'E', 'B': 'F', 'C': 'G', 'D': 'H'}[v0]
+        else:
+            d = f'/tmp/wt2-{pid}/SEEDED/{v0}' if ROUND2 else f'/tmp/wt-{pid}/SEEDED/{v0}'
+            v = {'A': 'C', 'B': 'D'}[v0] if ROUND2 else v0
         if not os.path.exists(os.path.join(d, 'patch.diff')):
             print(pid, v, 'missing'); continue
         out = subprocess.run([os.path.join(VER, 'tools/seeded_eval.sh'), d], capture_output=True, text=True).stdout
